@@ -479,3 +479,32 @@ Theorem C01_extended_copy_failure_untagged :
     xaccepts g c tgt d0 tr = Some st -> returned st <> Some true -> tag st = None.
 Proof. exact extended_copy_failure_untagged. Qed.
 Print Assumptions C01_extended_copy_failure_untagged.
+
+(* byte identity from every root (ExtendedCopyGraph) *)
+Theorem C01_bytes_identical_all_roots :
+  forall (digest : str -> nat) (src_bytes : node -> str)
+         (g : graph) (c : cfg) (d0 : list node) (tr : list event) (st : state) served bs0 bs,
+    closed_nodes g d0 -> mt_consistent g ->
+    collision_free digest src_bytes -> key_respects_bytes src_bytes g ->
+    (forall n b, In (n, b) bs0 -> verify digest src_bytes n b = true) -> map fst bs0 = d0 ->
+    accepts g c d0 tr = Some st -> returned st = Some true ->
+    brun digest src_bytes tr served bs0 = Some bs ->
+    forall r n, In r (c_root c :: c_xroots c) -> reach g r n ->
+      exists m b, In (m, b) bs /\ g_dkey g m = g_dkey g n /\ b = src_bytes n.
+Proof. exact bytes_identical_all_roots. Qed.
+Print Assumptions C01_bytes_identical_all_roots.
+
+(* ExtendedCopy, complete statement: reference on the node + every node under every root present with the source's bytes *)
+Theorem C01_extended_copy_bytes :
+  forall (digest : str -> nat) (src_bytes : node -> str)
+         (g : graph) (c : cfg) (tgt : node) (d0 : list node) (tr : list event) (st : state) served bs0 bs,
+    closed_nodes g d0 -> mt_consistent g ->
+    collision_free digest src_bytes -> key_respects_bytes src_bytes g ->
+    (forall n b, In (n, b) bs0 -> verify digest src_bytes n b = true) -> map fst bs0 = d0 ->
+    xaccepts g c tgt d0 tr = Some st -> returned st = Some true ->
+    brun digest src_bytes tr served bs0 = Some bs ->
+    tag st = Some tgt /\
+    forall r n, In r (c_root c :: c_xroots c) -> reach g r n ->
+      exists m b, In (m, b) bs /\ g_dkey g m = g_dkey g n /\ b = src_bytes n.
+Proof. exact extended_copy_bytes. Qed.
+Print Assumptions C01_extended_copy_bytes.
